@@ -122,9 +122,10 @@ def run(ck):
     ck.extra["traces_validated_against_impl"] = len(codes)
     ck.extra["displacement_cases"] = ndisp
     # ---------------- vacancy mediated -------------------------------------------------------------------
-    names = ["square", "honeycomb", "sq2w", "tria", "sc", "b2"] + ([] if ck.quick else ["fcc", "bcc", "hcp", "re3", "polar", "rect-polar2d"])
+    # rect-polar2d / polar / oblique2d: origin-state vector basis (extra pseudo-inverse steps in Lij); oblique1: low symmetry
+    names = ["square", "rect-polar2d", "honeycomb", "sq2w", "oblique1", "tria", "sc", "b2"] + ([] if ck.quick else ["fcc", "bcc", "hcp", "re3", "polar", "oblique2d", "mono"])
     nvm = 0
-    for rep in range(ck.n(4, 12)):
+    for rep in range(ck.n(6, 15)):
         nm = names[rep % len(names)]
         crys, chem = gen.named(nm)
         net = gen.percolating_network(crys, chem, rng, maxshell=1, maxjumps=30)
@@ -185,6 +186,26 @@ def run(ck):
                              {"crystal": nm, "cutoff": cut, "shift": c, "factor": factor, "betaF": [np.asarray(x).tolist() for x in (bFV, bFS, bFSV, bFT0, bFT1, bFT2)],
                               "betaF_transformed": [np.asarray(x).tolist() for x in a2], "base": [b.tolist() for b in base], "got": [g.tolist() for g in got]},
                              key="c04-vm-" + vn)
+        # the time unit is arbitrary: ALL rates scaled by 1e-12 .. 1e12 at ordinary rate ratios must scale all four tensors, on
+        # every crystal (origin-state vector bases, several Wyckoff sets, low symmetry included); no absolute rate threshold
+        # may enter (pseudo-inverse cutoffs, zero tests)
+        base = [np.array(x) for x in d.Lij(*d.preene2betafree(kT, **th))]
+        for lamx in ((1e-12, 1e12) if ck.quick else (1e-15, 1e-12, 1e-9, 1e-6, 1e6, 1e12)):
+            t3 = {k: np.array(v, dtype=float) for k, v in th.items()}
+            for k in ("preT0", "preT1", "preT2"): t3[k] = t3[k] * lamx
+            try:
+                got = [np.array(x) for x in d.Lij(*d.preene2betafree(kT, **t3))]
+            except Exception as e:
+                ck.violation("Lij raised %r when every rate is scaled by %g" % (e, lamx), {"crystal": nm, "cutoff": cut, "lam": lamx}, key="c04-vm-raise"); continue
+            nvm += 1
+            scale = np.abs(base[0]).max()
+            err = max(np.abs(g / lamx - b).max() for g, b in zip(got, base)) / scale
+            ck.case(key=("vm", "time-unit", nm, lamx, [np.asarray(v).round(10).tolist() for v in th.values()]), nontrivial=True, kind="vm:time-unit")
+            if not err <= 1e-7:
+                ck.violation("scaling every rate by %g does not scale the transport coefficients by %g (relative %.3g; origin-state vector stars: %d, Wyckoff sets: %d)"
+                             % (lamx, lamx, err, len(d.OSindices), len(sl)),
+                             {"crystal": nm, "cutoff": cut, "kT": kT, "lam": lamx, "thermo": {k: np.asarray(v).tolist() for k, v in th.items()},
+                              "L": [x.tolist() for x in base], "L_scaled_over_lam": [(x / lamx).tolist() for x in got]}, key="c04-vm-time-unit")
         # rate scaling over many decades with a very fast exchange (omega2 ~ 1e13 x bare): which omega2 algorithm Lij selects
         # must not depend on the time unit.  L0vv and Lss are accurate in this regime for crystals with one Wyckoff set and
         # no origin-state vector basis (Lsv/L1vv are the C08 known cancellation finding and are not compared)
